@@ -112,9 +112,14 @@ def apply_contract(interp, c, func, args, kwargs):
         n = st.counters.get('@call', 0)
         st.counters['@call'] = n + 1
         for pname in c.modifies:
-            if pname not in bound:
+            base, _, attrs = pname.partition('.')
+            if base not in bound:
                 raise Unsupported('contract %s: modifies names unknown parameter %r' % (c.qname, pname))
-            if not models.havoc_mutable(interp, bound[pname], 'call%d.%s' % (n, c.qname.rpartition(':')[2])):
+            target = bound[base]
+            for a in (attrs.split('.') if attrs else ()):      # 'param.attr.attr': only that part of the object
+                target = interp.resolve(target) if isinstance(target, (SOpt, SChoice)) else target
+                target = object.__getattribute__(target, '__dict__')[a]
+            if not models.havoc_mutable(interp, target, 'call%d.%s' % (n, c.qname.rpartition(':')[2])):
                 raise Unsupported('contract %s: nothing to havoc in parameter %r' % (c.qname, pname))
     # exceptional outcomes
     outcomes = ['return']
@@ -317,10 +322,14 @@ def _run_path(interp, reg, c, func, rep):
     # must be unchanged on every outcome
     from . import models as _models
     frame_snap = []
+    mods = tuple(c.modifies or ())
     for pname, pval in args.items():
-        if pname in (c.modifies or ()):
+        if pname in mods:
             continue
         for path_, m_ in _models.reachable_smaps(pval):
+            full = (pname + path_).replace('?', '')
+            if any(full == m or full.startswith(m + '.') for m in mods):
+                continue
             frame_snap.append((pname + path_, m_, m_.has, m_.val))
     # positional order of the real function
     code = func.__code__
